@@ -91,7 +91,7 @@ func (w *WalletManager) constructTxIn(inputs []*TxIn, lockTime uint64) (*wire.Ms
 		switch {
 		case pks.IsStaking():
 			txIn.Sequence = pks.Maturity()
-		case pks.IsBinding() && forks.EnforceMASSIP0002WarmUp(block.Height):
+		case pks.IsBinding() && forks.EnforceMASSIP0002WarmUp(w.prevOutHeight(block)):
 			txIn.Sequence = consensus.MASSIP0002BindingLockedPeriod
 		default:
 		}
@@ -104,6 +104,19 @@ func (w *WalletManager) constructTxIn(inputs []*TxIn, lockTime uint64) (*wire.Ms
 		}
 	}
 	return mtx, senders, totalValue, nil
+}
+
+// prevOutHeight is the height of the block that holds a previous output.  A pending
+// (unmined) previous transaction has no block yet: it can only be mined above the synced tip.
+func (w *WalletManager) prevOutHeight(block *txmgr.BlockMeta) uint64 {
+	if block != nil {
+		return block.Height
+	}
+	synced, err := w.SyncedTo()
+	if err != nil {
+		return 0
+	}
+	return synced + 1
 }
 
 func (w *WalletManager) constructTxOut(
@@ -675,7 +688,7 @@ func (w *WalletManager) signWitnessTx(password []byte, tx *wire.MsgTx, hashType 
 		}
 
 		scriptFlags := txscript.StandardVerifyFlags
-		if forks.EnforceMASSIP0002WarmUp(cacheMeta[txIn.PreviousOutPoint.Hash].Height) {
+		if forks.EnforceMASSIP0002WarmUp(w.prevOutHeight(cacheMeta[txIn.PreviousOutPoint.Hash])) {
 			scriptFlags |= txscript.ScriptMASSip2
 		}
 		// Either it was already signed or we just signed it.
